@@ -188,7 +188,9 @@ def evaluate_all(circ, rng, with_eff):
 
 
 def eff_cost_ok(circ, cap=6000):
-    c = circ.copy()
+    import copy as _copy
+
+    c = _copy.deepcopy(circ)  # not circ.copy(): the harness must not depend on the method the metrics use
     try:
         c.unwrap_nodes()
         c.remove_identity()
@@ -247,9 +249,9 @@ def report(res, key, clause, inp, name):
     res.violation(key, clause, input=small, original_length=len(inp["edits"]))
 
 
-def check_circuit(res, circ, rng, inp, model_m, model_spec=None):
+def check_circuit(res, circ, rng, inp, model_m, model_spec=None, before=None):
     """compare implementation, model (as coded) and definitions on one circuit"""
-    before = du.canon_state(du.canon_parts(circ)[0])
+    before = before or du.canon_state(du.canon_parts(circ)[0])
     with_eff = "eff." in model_m
     vals = evaluate_all(circ, rng, with_eff)
     if du.canon_state(du.canon_parts(circ)[0]) != before:
